@@ -215,6 +215,9 @@ def gen_cases(ctx, n):
         grams.append(g)
         fams.append("classic")
     # grammars on which Pager's garbage collection really removes states (reachability clause)
+    for src, _, _ in G.rare_shape_corpus():
+        grams.append(G.from_text(src))
+        fams.append("rare_shapes")
     for src in G.gc_chain_corpus()[:ctx.n(40, 60)] + G.gc_corpus()[:ctx.n(30, 120)]:
         grams.append(G.from_text(src))
         fams.append("gc_corpus")
